@@ -107,6 +107,8 @@ fn qr_key(q: usize, r: usize, quot: u64, rem: u64, trash: u64) -> u64 {
 pub fn key_spec() -> impl Strategy<Value = KeySpec> {
     prop_oneof![
         2 => any::<u64>().prop_map(KeySpec::Raw),
+        // the ends of the hash range (under the Ident hasher the key is the hash)
+        2 => prop_oneof![Just(u64::MAX), Just(u64::MAX - 1), Just(0u64), Just(1u64), Just(1u64 << 63), Just(u64::MAX >> 1), Just(1u64 << 32), Just((1u64 << 32) - 1)].prop_map(KeySpec::Raw),
         2 => (0u8..40).prop_map(KeySpec::Small),
         4 => (any::<u16>(), 0u16..6, any::<u64>()).prop_map(|(quot, rem, trash)| KeySpec::QR { quot, rem, trash }),
         2 => (0u8..4, 0u16..6, any::<u64>()).prop_map(|(back, rem, trash)| KeySpec::QREnd { back, rem, trash }),
@@ -131,7 +133,7 @@ pub fn hkind_any() -> impl Strategy<Value = HKind> {
 pub fn hkind_for(cfg: &FCfg) -> BoxedStrategy<HKind> {
     match cfg {
         FCfg::Quotient { .. } => prop_oneof![6 => Just(HKind::Ident), 4 => hkind_any()].boxed(),
-        FCfg::Cuckoo { .. } | FCfg::Bloom { .. } => prop_oneof![5 => Just(HKind::Split), 5 => hkind_any()].boxed(),
+        FCfg::Cuckoo { .. } | FCfg::Bloom { .. } => prop_oneof![5 => Just(HKind::Split), 1 => Just(HKind::Ident), 5 => hkind_any()].boxed(),
         FCfg::Set => hkind_any().boxed(),
     }
 }
@@ -155,7 +157,7 @@ pub fn quotient_cfg_small() -> impl Strategy<Value = FCfg> {
 }
 
 pub fn bloom_cfg() -> impl Strategy<Value = FCfg> {
-    (prop_oneof![1usize..=16, 1usize..=512], prop_oneof![12 => 0usize..=8, 1 => 9usize..=40]).prop_map(|(m, k)| FCfg::Bloom { m, k })
+    (prop_oneof![12 => 1usize..=16, 12 => 1usize..=512, 1 => prop_oneof![Just(65_535usize), Just(65_536), Just(65_537), Just(1usize << 22), Just((1usize << 22) + 1)]], prop_oneof![12 => 0usize..=8, 1 => 9usize..=40]).prop_map(|(m, k)| FCfg::Bloom { m, k })
 }
 
 pub fn filter_cfg() -> impl Strategy<Value = FCfg> {
